@@ -178,7 +178,7 @@ func runC01(r *rt.Runner) {
 	for _, op := range cmOps {
 		for pos := range op.entry {
 			for _, h := range cyc {
-				for _, nEnt := range []int{1, 2} {
+				for _, nEnt := range []int{1, 2, 9} {
 					op, pos, h, nEnt := op, pos, h, nEnt
 					r.Case("cmap-operand/"+op.name, func(c *rt.C) {
 						var sb strings.Builder
